@@ -27,12 +27,14 @@ LOCATION_ATTRS = ("table_path", "base_path", "prefix")
 
 def check(ctx: Ctx) -> None:
     r1(ctx)
+    r1_noskip(ctx, "C05.R1b")
     r2(ctx)
     r3(ctx, "C05.R3")
     r4(ctx, "C05.R4")
     r5(ctx)
-    from .c06 import r1 as c06_r1
+    from .c06 import r1 as c06_r1, r3 as c06_r3
     c06_r1(ctx, "C05.R6")
+    c06_r3(ctx, "C05.R7")
 
 
 def set_adds(ctx: Ctx, f: FunctionInfo, setname: str) -> List[Node]:
@@ -45,8 +47,8 @@ def set_adds(ctx: Ctx, f: FunctionInfo, setname: str) -> List[Node]:
     return out
 
 
-def r1(ctx: Ctx) -> None:
-    ctx.rule("C05.R1", "reachability covers every retained snapshot: the walk iterates metadata.snapshots unfiltered, every "
+def r1(ctx: Ctx, rid: str = "C05.R1") -> None:
+    ctx.rule(rid, "reachability covers every retained snapshot: the walk iterates metadata.snapshots unfiltered, every "
              "manifest list feeds the manifest set and every manifest feeds the data-file set; the only conditions on an "
              "insertion test the inserted path itself", 6)
     f = ctx.fn(GC + ".collect")
@@ -54,13 +56,13 @@ def r1(ctx: Ctx) -> None:
     dom = ctx.dom(f, NORMAL)
     loops = [n for n in g.nodes if n.kind == "loop" and isinstance(n.ast, ast.For)]
     snap_loops = [l for l in loops if norm_text(l.ast.iter).endswith(".snapshots")]  # type: ignore[union-attr]
-    ctx.ob("C05.R1", f, "iterates metadata.snapshots", snap_loops[0] if snap_loops else None, bool(snap_loops),
+    ctx.ob(rid, f, "iterates metadata.snapshots", snap_loops[0] if snap_loops else None, bool(snap_loops),
            "the walk starts from ALL retained snapshots, not only the current one")
     sets = {"reachable_manifest_lists": "manifest_list", "reachable_manifests": "manifest_path",
             "reachable_data_files": "file_path"}
     for sname, attr in sets.items():
         adds = set_adds(ctx, f, sname)
-        ctx.ob("C05.R1", f, f"{sname} is populated", adds[0] if adds else None, bool(adds),
+        ctx.ob(rid, f, f"{sname} is populated", adds[0] if adds else None, bool(adds),
                f"{sname}.add(...) exists", nontrivial=False, text=sname)
         for a in adds:
             sl = ctx.slicer(f)
@@ -76,7 +78,7 @@ def r1(ctx: Ctx) -> None:
             bad = [b for b in conds if not (names_in(b.ast) - {"self"}) <= argnames | {"self.storage"}
                    and "exists" not in b.text]
             brk = [n for n in g.nodes if isinstance(n.ast, ast.Break) and any(fr.kind == "loop" and fr.node in encl for fr in n.frames)]
-            ctx.ob("C05.R1", f, f"{sname}.add: source field and unfiltered", a, ok_src and not bad and not brk,
+            ctx.ob(rid, f, f"{sname}.add: source field and unfiltered", a, ok_src and not bad and not brk,
                    f"inserted value derives from .{attr}; guarding conditions {[b.text[:40] for b in conds]} only test the path; no break"
                    + (f"; filtering condition(s): {[b.text[:60] for b in bad]}" if bad else ""))
     # each reachable set is then iterated to read the next level
@@ -84,8 +86,54 @@ def r1(ctx: Ctx) -> None:
         lp = [l for l in loops if norm_text(l.ast.iter) == sname]  # type: ignore[union-attr]
         rd = ctx.calls(f, name=reader)
         ok = bool(lp) and bool(rd) and all(any(fr.kind == "loop" and fr.node is lp[0].ast for fr in r.frames) for r in rd)
-        ctx.ob("C05.R1", f, f"every element of {sname} is read with {reader}", lp[0] if lp else None, ok,
+        ctx.ob(rid, f, f"every element of {sname} is read with {reader}", lp[0] if lp else None, ok,
                "no manifest (list) of a retained snapshot is skipped", text=sname)
+
+
+def r1_noskip(ctx: Ctx, rid: str) -> None:
+    ctx.rule(rid, "no skip path in the reachability walk: every iteration over the reachable manifest lists / manifests reads its "
+             "element or raises - no `continue`/fall-through that leaves a retained snapshot's files out of the reachable set", 2)
+    f = ctx.fn(GC + ".collect")
+    g = ctx.cfg(f)
+    loops = [n for n in g.nodes if n.kind == "loop" and isinstance(n.ast, ast.For)]
+    for sname, reader in (("reachable_manifest_lists", "read_manifest_list_file"), ("reachable_manifests", "read_manifest_file")):
+        lp = [l for l in loops if norm_text(l.ast.iter) == sname]  # type: ignore[union-attr]
+        rd = ctx.calls(f, name=reader)
+        if not lp or not rd:
+            ctx.ob(rid, f, f"loop over {sname} reads with {reader}", lp[0] if lp else None, False,
+                   "the reachability walk must read every manifest (list) of every retained snapshot", text=sname)
+            continue
+        body = edge_target(g, lp[0], "true")
+        w = None
+        if body is not None:
+            w = [body] if body == lp[0].id else find_path(g, body, [lp[0].id], avoid=[r.id for r in rd], labels=ALL)
+        ctx.ob(rid, f, f"every iteration over {sname} reaches {reader} or raises", lp[0], w is None,
+               "a path that skips the read (e.g. `continue` for a 'historical' snapshot whose list is missing) silently drops "
+               "that snapshot's manifests and data files from the reachable set; the sweep then deletes them",
+               witness=ctx.path_witness(f, w), text=sname)
+        # and each element read is then consumed: the loop over its result feeds the next set
+    for sname in ("reachable_manifests", "reachable_data_files"):
+        adds = set_adds(ctx, f, sname)
+        for a in adds:
+            encl = [fr.node for fr in a.frames if fr.kind == "loop"]
+            inner = [l for l in loops if l.ast in encl]
+            if not inner:
+                continue
+            il = max(inner, key=lambda l: l.lineno)
+            body = edge_target(g, il, "true")
+            if body is None:
+                continue
+            # within the inner loop, a path back to the head that avoids the add may only leave through the
+            # "empty path entry" guard (a branch testing the inserted path itself)
+            arg = a.ast.args[0] if isinstance(a.ast, ast.Call) and a.ast.args else None
+            srcnames = {n for n in ctx.slicer(f).origins(arg, a.id)["names"] if not n.startswith("self")}
+            guard_false = {(b.id, d) for b in g.nodes if b.kind == "branch" and b.ast is not None
+                           and (names_in(b.ast) - {"self"}) <= srcnames and (names_in(b.ast) - {"self"})
+                           for d, l in g.succ[b.id] if l == "false"}
+            w = find_path(g, body, [il.id], avoid=[a.id], labels=NORMAL, edge_ok=lambda s_, d_, l_: (s_, d_) not in guard_false) \
+                if body != a.id else None
+            ctx.ob(rid, f, f"every entry read feeds {sname}", a, w is None,
+                   "no manifest / data file entry is left out except an empty path", witness=ctx.path_witness(f, w))
 
 
 def r2(ctx: Ctx) -> None:
@@ -230,6 +278,12 @@ def r3(ctx: Ctx, rid: str) -> None:
                 ok = True
         ctx.ob(rid, lp, "marker deleted only when older than the abandonment timeout", d, ok,
                "a fresh marker is never removed by the collector")
+        org = ctx.slicer(lp).origins(path_arg(d), d.id)
+        via_target = any(isinstance(c, ast.Call) and (dotted(c.func) or "").endswith("_marker_target") for c in org["calls"])
+        listed = any(isinstance(c, ast.Call) and (dotted(c.func) or "").endswith("list_files") for c in org["calls"])
+        ctx.ob(rid, lp, "the marker sweep deletes the marker file itself, never the file it names", d, listed and not via_target,
+               "an old marker does not prove its transaction never committed (a writer killed after the pointer flip leaves its "
+               "markers behind): deleting the named file here removes files of a committed snapshot before reachability is known")
 
 
 def r4(ctx: Ctx, rid: str) -> None:
